@@ -38,8 +38,45 @@ LIST_RE = re.compile(
 FTYPES = {"BASIC": 0, "Data": 1, "Object": 2, "Text": 3}
 
 
+_CLI_FORMAT = {}
+
+
+def cli_listing_recognised():
+    """Calibration, once per process: does this tree's ``file_util --list`` still print the record layout
+    LIST_RE was written for?  The properties pin down what a listing *returns*, not how the command line
+    prints it; when a golden one-file tape and disk (written by the peers) do not come back through the
+    parser, the printed form has changed and CLI listings are not judged (the API listings still are)."""
+    if "ok" not in _CLI_FORMAT:
+        from .peers import tape as RT, diskbasic as RD
+        from .world import World
+        ok = True
+        try:
+            f = {"name": "HELLO", "ext": "BIN", "ftype": 2, "dtype": 0, "gap": 0, "load": 0x0E00, "exec": 0x0E01, "data": b"\x12\x34\x39"}
+            img = RD.blank()
+            RD.save(img, f)
+            for key, data in (("golden.cas", RT.write_file(f)), ("golden.dsk", bytes(img))):
+                w = World()
+                w.put(key, data, who="SETUP")
+                r = w.invoke("file_util", [key, "--list"])
+                got = _parse(r.stdout)
+                if (r.crashed or r.status != 0 or len(got) != 1 or got[0]["name"].strip().upper() != "HELLO" or got[0]["len"] != 3
+                        or got[0]["load"] != 0x0E00 or got[0]["exec"] != 0x0E01 or got[0]["ftype"] != 2 or got[0]["dtype"] != 0):
+                    ok = False
+        except Exception:       # noqa - a tree on which even the golden listing fails is judged by the other routes
+            ok = False
+        _CLI_FORMAT["ok"] = ok
+    return _CLI_FORMAT["ok"]
+
+
 def parse_listing(stdout):
-    """Parse ``file_util --list`` output into a list of dicts (name, ext, ftype, dtype, load, exec, len)."""
+    """Parse ``file_util --list`` output into a list of dicts (name, ext, ftype, dtype, load, exec, len);
+    None when this tree prints listings in a form the parser was not written for (see above)."""
+    if not cli_listing_recognised():
+        return None
+    return _parse(stdout)
+
+
+def _parse(stdout):
     out = []
     for m in LIST_RE.finditer(stdout):
         out.append({"name": m.group("name"), "ext": m.group("ext"), "ftype": FTYPES.get(m.group("ftype")),
